@@ -105,6 +105,7 @@ def register(reg):
             ('nodes-parsed-before-the-error-are-attached',
              'exc.recovery_nodes is not None and exc.recovery_nodes.nodelist is the_collector()._nodelist'),
             ('recovery-nodes-lie-in-range',
+             'exc.recovery_nodes.pos is not None and exc.recovery_nodes.pos_end is not None and '
              'old(%s) <= exc.recovery_nodes.pos and exc.recovery_nodes.pos <= exc.recovery_nodes.pos_end and '
              'exc.recovery_nodes.pos_end <= len(latex_walker.s)' % RDP),
             ('reader-never-moves-backwards', 'old(%s) <= %s and %s <= len(latex_walker.s)' % (RDP, RDP, RDP)),
